@@ -619,6 +619,14 @@ class Exec(ExprMixin, CallMixin):
         body_only = ast.Module(body=st.body, type_ignores=[])
         # arguments of calls whose contracts declare a frame, or that are inlined (conservative: havoc mutable args)
         for n in ast.walk(st):
+            if isinstance(n, ast.Call) and isinstance(n.func, ast.Name):
+                # a closure defined in this function that rebinds variables of the enclosing scope (`nonlocal`): every
+                # such variable may change in the loop (whether the closure is inlined or applied by contract)
+                fvv = fr.lookup(n.func.id)
+                if isinstance(fvv, VFunc) and getattr(fvv.info, "kind", None) == "nested":
+                    for sub in ast.walk(fvv.info.node):
+                        if isinstance(sub, ast.Nonlocal):
+                            names.update(sub.names)
             if isinstance(n, ast.Call):
                 if isinstance(n.func, ast.Name) and n.func.id in _PURE_BUILTINS and fr.lookup(n.func.id) is None \
                         and fr.module is not None and n.func.id not in getattr(fr.module, "functions", {}):
